@@ -128,6 +128,8 @@ def realize(repo: Repo, chk: Check) -> None:
         chk.result(bool(has_fact(s, ["$u in $us"], {"u": tv})) or any("not in" in ast.unparse(st) and "continue" in ast.unparse(st) for st in body[:1]), rule, key + ":is-use", s.where(),
                    "only ops that use the cast value are considered")
         # classification of the use
+        if flag_if is not None and any(isinstance(c_, ast.Call) and isinstance(c_.func, ast.Name) and c_.func.id not in ("isinstance", "len", "bool") for c_ in ast.walk(flag_if.test)):
+            raise AnalysisError(f"{s.where()}: whether a use {'reads' if which == 'copy-in' else 'writes'} the buffer is decided by `{ast.unparse(flag_if.test)[:60]}`, a helper the clause does not read")
         flag = ast.unparse(flag_if.test) if flag_if is not None else None
         side = "inputs" if which == "copy-in" else "outputs"
         kernel_assigns = []
